@@ -1,10 +1,10 @@
 #!/bin/sh
-# usage: eval_fa.sh <prop-lowercase e.g. c14> <PROP> [scale]
+# usage: eval_fa.sh <agent tag e.g. c14 or c14b> <PROP> [scale] [suffix of the destination directory, e.g. -2]
 # A behaviour-preserving change written by an independent agent: store it under /verif/seeded/preserving-<PROP>/ and run the
 # check against it in a scratch worktree.  Expected: exit 0 (no alarm).
-tag=$1; prop=$2; scale=${3:-0.5}
+tag=$1; prop=$2; scale=${3:-0.5}; suffix=$4
 out=/tmp/fa-$tag-out; wtagent=/tmp/fa-$tag
-dest=/verif/seeded/preserving-$prop
+dest=/verif/seeded/preserving-$prop$suffix
 mkdir -p $dest
 git -C $wtagent diff > $dest/patch.diff
 cp $out/notes.md $out/check_property.py $dest/ 2>/dev/null
